@@ -83,6 +83,8 @@ def coarse(path):
     cls = re.sub(r"(branch|allOf):\d+", r"\1:#", cls)
     tags = [t for t, pat in (("index", "/index"), ("underbranch", "branch:#"), ("genfield", "gen-field"),
                              ("allOf", "allOf"), ("entry", "/entrypoint")) if pat in cls]
+    if cls.count("/") > 2:
+        tags.append("nested")
     return ",".join(tags) + "|" + cls.split("/")[-1]
 
 
@@ -170,6 +172,8 @@ W_NULLPAIR_UNDER_BRANCH_F = _schemas(_obj("U", _struct(("f", _disj(_arr(_disj(ST
 W_NULLPAIR_IN_INDEX_F = _schemas(_obj("U", _struct(("f", _map(_disj(STR, NULL), STR), True))))
 W_FLATTEN_NULLPAIR_F = _schemas(_obj("U", _struct(("f", _disj(_map(STR, STR), _map(STR, BOOL), NULL), True))))
 W_SCALAR_UNION_NULLABLE = _schemas(_obj("A", _struct(("f", _disj(STR, STR), False))))
+W_ANY_NULLABLE = _schemas(_obj("A", _struct(("x", STR, True))), _obj("B", _struct(("y", STR, True))),
+                         _obj("U", _struct(("f", _disj(_ref("A"), _ref("B")), False))))
 W_STRUCT_OUT_OF_ALLOF = _schemas(_obj("A", '(inter (branches %s) %s)' % (_disj(_arr(_struct()), STR), M0)))
 W_JAVA_ALIAS = _schemas(_obj("S", _struct(("a", STR, True))), _obj("Al", _ref("S")), _obj("U", _struct(("s", _ref("S"), True))))
 W_PHP_INLINE = _schemas(_obj("T", STR), _obj("U", _struct(("t", _ref("T"), False))))
@@ -187,7 +191,10 @@ for _l in ("go", "java"):
            r"lang=%s conjunct=(NoUnion|NoNullPairUnion) at=\S*/index\S* input=.*%s" % (_l, DISJ_IN_INDEX), "chain %s %s" % (_l, W_UNION_IN_INDEX)),
         _f("C06/%s/same-kind-scalar-union-drops-nullable" % _l,
            "%s chain: DisjunctionToType rewrites a union of same-kind scalars to `NewScalar(kind, Default(…))`, dropping Nullable: a non-required field ends up not nullable" % _l,
-           r"lang=%s conjunct=NonRequiredNullable at=\S*:scalar\b.*input=.*\(f \"[^\"]*\" \(disj " % _l, "chain %s %s" % (_l, W_SCALAR_UNION_NULLABLE)),
+           r"lang=%s conjunct=NonRequiredNullable at=\S*:scalar\((?!any\)).*input=.*\(f \"[^\"]*\" \(disj " % _l, "chain %s %s" % (_l, W_SCALAR_UNION_NULLABLE)),
+        _f("C06/%s/undiscriminated-union-to-any-drops-nullable" % _l,
+           "%s chain: UndiscriminatedDisjunctionToAny replaces a union of references without discriminator/mapping by `ast.Any()`, which is not Nullable: a non-required field ends up not nullable (the jennies treat `any` as nullable through NullableKinds.AnyIsNullable, the IR flag is lost)" % _l,
+           r"lang=%s conjunct=NonRequiredNullable at=\S*:scalar\(any\).*input=.*\(f \"[^\"]*\" \(disj " % _l, "chain %s %s" % (_l, W_ANY_NULLABLE)),
         _f("C06/%s/struct-lifted-out-of-allOf" % _l,
            "%s chain: a disjunction inside an allOf composition is lifted into a generated object by DisjunctionToType; anonymous structs below its branches (never named because AnonymousStructsToNamed skips intersections) end up outside any allOf" % _l,
            r"lang=%s conjunct=StructsNamedOutsideAllOf .*input=.*\(inter \(branches .*\(disj .*\(struct " % _l, "chain %s %s" % (_l, W_STRUCT_OUT_OF_ALLOF)),
@@ -195,6 +202,9 @@ for _l in ("go", "java"):
 PROPOSED.append(_f("C06/java/remove-intersections-rebuilds-field",
                    "java chain: RemoveIntersections rebuilds fields that refer to an aliased struct/array object with ast.NewStructField (Required=false, Nullable=false): a non-required, non-nullable field",
                    r"lang=java conjunct=NonRequiredNullable at=\S*:(ref|array)\b", "chain java %s" % W_JAVA_ALIAS))
+PROPOSED.append(_f("C06/php/undiscriminated-union-to-any-drops-nullable",
+                   "php chain: UndiscriminatedDisjunctionToAny replaces a union of references without discriminator/mapping by `ast.Any()`, which is not Nullable: a non-required field ends up not nullable",
+                   r"lang=php conjunct=NonRequiredNullable at=\S*:scalar\(any\).*input=.*\(f \"[^\"]*\" \(disj ", "chain php %s" % W_ANY_NULLABLE))
 PROPOSED.append(_f("C06/php/inline-drops-nullable",
                    "php chain: InlineObjectsWithTypes replaces a (nullable) reference by a deep copy of the referred type, losing Nullable: a non-required field ends up not nullable",
                    r"lang=php conjunct=NonRequiredNullable .*input=.*\(f \"[^\"]*\" \(ref ", "chain php %s" % W_PHP_INLINE))
